@@ -67,6 +67,10 @@ func (s *c14Sys) describe(e clustermc.Ev) string {
 		return fmt.Sprintf("%s(conn%d,%q)", e.K, e.A, c14Patterns[e.B])
 	case "unsuball", "punsuball", "disconnect":
 		return fmt.Sprintf("%s(conn%d)", e.K, e.A)
+	case "msub", "munsub":
+		return fmt.Sprintf("%sscribe(conn%d, every channel in one command, order %d)", e.K[1:], e.A, e.B)
+	case "mpsub", "mpunsub":
+		return fmt.Sprintf("%sscribe(conn%d, every pattern in one command, order %d)", e.K[1:], e.A, e.B)
 	case "publish":
 		return fmt.Sprintf("PUBLISH(via member%d,%q)", e.A, c14Channels[e.B])
 	}
@@ -84,7 +88,10 @@ func (s *c14Sys) Events() []clustermc.Ev {
 		for i := range c14Patterns {
 			evs = append(evs, clustermc.Ev{K: "psub", A: c, B: i})
 		}
-		if conn.srv != nil && !conn.gone { // only a connection that has subscribed once is in subscriber mode
+		// several names in one command
+		evs = append(evs, clustermc.Ev{K: "msub", A: c, B: 0}, clustermc.Ev{K: "mpsub", A: c, B: 1})
+		if conn.srv != nil && !conn.gone {
+			evs = append(evs, clustermc.Ev{K: "munsub", A: c, B: 1}, clustermc.Ev{K: "mpunsub", A: c, B: 0}) // only a connection that has subscribed once is in subscriber mode
 			for i := range c14Channels {
 				evs = append(evs, clustermc.Ev{K: "unsub", A: c, B: i})
 			}
@@ -154,10 +161,39 @@ func (s *c14Sys) Apply(e clustermc.Ev) []clustermc.Fail {
 		fs = append(fs, clustermc.Fail{Key: k, What: fmt.Sprintf(f, a...)})
 	}
 	switch e.K {
-	case "sub", "psub", "unsub", "punsub", "unsuball", "punsuball":
+	case "sub", "psub", "unsub", "punsub", "unsuball", "punsuball", "msub", "munsub", "mpsub", "mpunsub":
 		c := s.Conns[e.A]
 		var args []string
+		ordered := func(names []string) []string {
+			out := append([]string{}, names...)
+			if e.B == 1 {
+				for i, j := 0, len(out)-1; i < j; i, j = i+1, j-1 {
+					out[i], out[j] = out[j], out[i]
+				}
+			}
+			return out
+		}
 		switch e.K {
+		case "msub":
+			args = append([]string{"subscribe"}, ordered(c14Channels)...)
+			for _, ch := range c14Channels {
+				c.subs["c:"+ch] = true
+			}
+		case "munsub":
+			args = append([]string{"unsubscribe"}, ordered(c14Channels)...)
+			for _, ch := range c14Channels {
+				delete(c.subs, "c:"+ch)
+			}
+		case "mpsub":
+			args = append([]string{"psubscribe"}, ordered(c14Patterns)...)
+			for _, pt := range c14Patterns {
+				c.subs["p:"+pt] = true
+			}
+		case "mpunsub":
+			args = append([]string{"punsubscribe"}, ordered(c14Patterns)...)
+			for _, pt := range c14Patterns {
+				delete(c.subs, "p:"+pt)
+			}
 		case "sub":
 			args = []string{"subscribe", c14Channels[e.B]}
 			c.subs["c:"+c14Channels[e.B]] = true
@@ -375,13 +411,22 @@ func c14Traces(max int) []confx.Trace {
 	var paths [][]clustermc.Ev
 	s0 := c14New(p)
 	first := s0.Events()
+	multi := func(e clustermc.Ev) bool { return strings.HasPrefix(e.K, "m") } // not known to the replayer
 	for _, e := range first {
-		paths = append(paths, []clustermc.Ev{e})
+		if !multi(e) {
+			paths = append(paths, []clustermc.Ev{e})
+		}
 	}
 	for _, e := range first {
+		if multi(e) {
+			continue
+		}
 		s := c14New(p)
 		s.Apply(e)
 		for _, e2 := range s.Events() {
+			if multi(e2) {
+				continue
+			}
 			paths = append(paths, []clustermc.Ev{e, e2})
 		}
 	}
